@@ -1319,7 +1319,7 @@ class MiniInterp:
                     if (c.qual, attr) not in self.class_state and attr in c.class_attrs and c.class_attrs[attr] is not None:
                         # the class body is executed once: every instance sees the same object
                         f0 = next(iter(c.methods.values()), fi)
-                        self.class_state[(c.qual, attr)] = self.ev(c.class_attrs[attr], self.class_namespace(c), f0)
+                        self.class_state[(c.qual, attr)] = self.ev(c.class_attrs[attr], self.class_namespace(c, c.class_attrs[attr]), f0)
                     if (c.qual, attr) in self.class_state:
                         val = self.class_state[(c.qual, attr)]
                         if isinstance(val, T) and val[0] == "partialmethod":
@@ -1376,7 +1376,7 @@ class MiniInterp:
             for c in ci.mro():
                 if attr in c.class_attrs and c.class_attrs[attr] is not None:
                     f0 = next(iter(c.methods.values()), fi)
-                    self.class_state[(c.qual, attr)] = self.ev(c.class_attrs[attr], self.class_namespace(c), f0)
+                    self.class_state[(c.qual, attr)] = self.ev(c.class_attrs[attr], self.class_namespace(c, c.class_attrs[attr]), f0)
                     return self.class_state[(c.qual, attr)]
             if any(c.is_namedtuple() for c in ci.mro()):
                 if attr == "_make":
@@ -2167,9 +2167,11 @@ class MiniInterp:
             return v.pull()
         return iter(self.iterate(v))
 
-    def class_namespace(self, c) -> dict:
-        """names visible in the body of class c: its functions (plain functions there) and the class attributes evaluated so far"""
-        env = {nm: BoundFunc(m, None) for nm, m in c.methods.items()}
+    def class_namespace(self, c, before=None) -> dict:
+        """names visible in the body of class c: its functions (plain functions there) and the class attributes evaluated so far;
+        with `before` (an expression of the class body), only what the body has bound above that line (the body runs top to bottom)"""
+        line = getattr(before, "lineno", None)
+        env = {nm: BoundFunc(m, None) for nm, m in c.methods.items() if line is None or m.node.lineno < line}
         for (q, nm), v in self.class_state.items():
             if q == c.qual:
                 env[nm] = v
